@@ -141,7 +141,41 @@ pub fn run(cfg: &Cfg) -> Report {
         } else if i < n_pairs_rows + n_sum {
             // ---- (c) totals
             let mut g = SplitMix::derive(seed ^ 0xC15, i);
-            let len = match g.below(10) { 0 => 0, 1 => 1, 2 => 2, _ => g.below(40) } as usize;
+            if i % 3 == 2 {
+                // float results: the order of summation is observable through rounding, so "the sum of the per-case
+                // results kept in the order given" is the left fold; lengths around and beyond typical block sizes
+                let len = match g.below(6) { 0 => 1 + g.below(8), 1 => 60 + g.below(12), 2 => 120 + g.below(20), 3 => 250 + g.below(60), _ => 1 + g.below(40) } as usize;
+                let style = g.below(4);
+                let vs: Vec<f64> = (0..len).map(|j| match style {
+                    0 => if j == 0 { 1e16 } else { 1.0 },
+                    1 => { let k = g.below(120) as i32 - 60; let m = 1.0 + (g.below(1 << 20) as f64) / (1u64 << 20) as f64; (if g.chance(1, 2) { -m } else { m }) * 2f64.powi(k) }
+                    2 => 0.1 * (1 + g.below(9)) as f64,
+                    _ => *g.pick(&[1e16, -1e16, 1.0, 3.0, 1e-3, 0.1, -0.0, 0.0]),
+                }).collect();
+                let subject = g.below(3);
+                let via_collect = g.chance(1, 2);
+                let real = std::panic::catch_unwind(|| {
+                    let (rs, t): (Vec<f64>, f64) = match subject {
+                        0 => { let t: TestResults<Score<f64>> = if via_collect { vs.iter().copied().collect() } else { vs.clone().into() }; (t.results.iter().map(|s| s.0).collect(), t.total_result.0) }
+                        1 => { let t: TestResults<Error<f64>> = if via_collect { vs.iter().copied().collect() } else { vs.clone().into() }; (t.results.iter().map(|s| s.0).collect(), t.total_result.0) }
+                        _ => { let t: TestResults<f64> = if via_collect { vs.iter().copied().collect() } else { vs.clone().into() }; (t.results.clone(), t.total_result) }
+                    };
+                    format!("r={} t={}", list(&rs.iter().map(|x| x.to_bits()).collect::<Vec<_>>()), if t.is_nan() { "nan".to_string() } else { t.to_bits().to_string() })
+                });
+                let req = format!("res fsum {}", list(&vs.iter().map(|x| x.to_bits()).collect::<Vec<_>>()));
+                let model = d.ask(&req);
+                r.case(&req, len >= 2);
+                r.hit(&format!("float vector len {}", match len { 1 => "1", 2..=64 => "2-64", 65..=128 => "65-128", _ => "129+" }));
+                match real {
+                    Ok(s) => if s != model {
+                        r.violate(json!({"case": if req.len() > 600 { format!("{}… ({} values, style {style}, subject {subject})", &req[..600], len) } else { req.clone() }, "real": s.split(" t=").nth(1), "spec": model.split(" t=").nth(1),
+                            "what": "float results: the results are not the values given in order, or the total is not their sum taken in that order (left fold)"}));
+                    },
+                    Err(_) => r.violate(json!({"case": "float vector", "what": "building TestResults panicked"})),
+                }
+                return;
+            }
+            let len = match g.below(12) { 0 => 0, 1 => 1, 2 => 2, 3 => 60 + g.below(80), 4 => 200 + g.below(200), _ => g.below(40) } as usize;
             let style = g.below(4);
             let mut vs: Vec<i64> = (0..len).map(|_| match style {
                 0 => g.below(20) as i64 - 10,
